@@ -13,7 +13,8 @@
 //! * string literals: all strings of length ≤ 3 (thorough ≤ 4) over a 13-character menu written as
 //!   double-quoted, single-quoted and triple-quoted literals by two escapers that use only the
 //!   implemented escapes (`\n \t \r \" \' \\ \xHH` with HH < 0x80);
-//! * triple-quoted multi-line layouts: ≤ 3 content lines × indent {0,2,4,TAB} × opener residue ×
+//! * triple-quoted multi-line layouts: ≤ 3 content lines (both tiers: a blank line strictly between two
+//!   content lines needs three) × indent {0,2,4,TAB} × opener residue ×
 //!   closing-delimiter position; the model encodes the rules pinned by the repository's
 //!   `multiline_string_*` tests and marks every other layout Unspecified (for those only
 //!   "indentation stripping never deletes a non-whitespace character" is asserted);
@@ -815,6 +816,11 @@ fn units(tier: Tier) -> Vec<Unit> {
             u.push(Unit::Layouts(0));
             u.push(Unit::Layouts(1));
             u.push(Unit::Layouts(2));
+            // three content lines: the smallest layouts in which a blank line lies strictly between two content
+            // lines (rule R6), combined with opener residue × every indentation of the lines around it
+            for first in 0..(4 * layout_menu(tier, 3)) {
+                u.push(Unit::LayoutSlice(3, first));
+            }
         }
         Tier::Thorough => {
             for st in 0..6 {
@@ -840,8 +846,7 @@ fn layout_menu(tier: Tier, nlines: usize) -> usize {
     match (tier, nlines) {
         (_, 0) | (_, 1) => LINE_MENU.len(),
         (Tier::Quick, _) => 3,
-        (Tier::Thorough, 2) => LINE_MENU.len(),
-        (Tier::Thorough, _) => 3,
+        (Tier::Thorough, _) => LINE_MENU.len(),
     }
 }
 
@@ -946,14 +951,14 @@ impl Prop for C30 {
              (exact value, midpoint to the successor/predecessor, ±1 in the last digit, truncations to 17-20 significant digits, zero padding) of boundary values incl. subnormals, 2^53, 1e22/1e23, MAX, plus 300-400 digit spellings and `_` placements; \
              every float expectation is verified by an independent exact-decimal bracket check; literals that round to ±inf or underflow to 0 are Unspecified; \
              strings: all strings of length ≤ {} over {:?} as double-, single- and triple-quoted literals written by two escapers (only \\n \\t \\r \\\" \\' \\\\ \\xHH<0x80); \
-             multi-line layouts: ≤ {} content lines × indent {{0,2,4,TAB}} × line menu × opener residue × closer (own line with indent / inline): exact value where the repository's multiline_string_* tests pin the rule, \
+             multi-line layouts: ≤ 3 content lines × indent {{0,2,4,TAB}} × line menu ({}) × opener residue × closer (own line with indent / inline): exact value where the repository's multiline_string_* tests pin the rule, \
              otherwise only 'no non-whitespace character is lost' (or rejection); malformed literals: no fault. Every case is distinct by construction and counted as non-trivial",
             DIGIT_MENU,
             tier.pick("", ", 2147483648, 4294967296, 999999, and MAX/MIN with ≤ 2 separators"),
             tier.pick(3, 4),
             tier.pick(3, 4),
             MENU,
-            tier.pick(2, 3),
+            tier.pick("all 5 lines of LINE_MENU for ≤ 1 content line; `a`, `b c` and the blank line for 2 and 3 content lines", "all 5 lines of LINE_MENU"),
         )
     }
     fn assumptions(&self) -> Vec<String> {
